@@ -218,6 +218,8 @@ mut("M94", "conn.go", "			if _, ok := seen[val]; ok {\n				return errors.New(\"M
 mut("M95", "conn.go", "	if _, ok := seen[DSNNotifyNever]; ok && len(seen) > 1 {", "	if _, ok := seen[DSNNotifyNever]; ok && len(seen) > 2 {", ["C11"], "never-stands-alone", note="NOTIFY=NEVER,x accepted")
 mut("M98", "conn.go", "			size, err := strconv.ParseUint(value, 10, 32)\n			if err != nil {\n				c.writeResponse(501, EnhancedCode{5, 5, 4}, \"Unable to parse SIZE as an integer\")", "			size, err := strconv.ParseUint(value, 0, 32)\n			if err != nil {\n				c.writeResponse(501, EnhancedCode{5, 5, 4}, \"Unable to parse SIZE as an integer\")", ["C11"], "size", note="SIZE parsed with base prefix detection (0x10 accepted)")
 mut("M99", "conn.go", "		if err == nil && !isPrintableASCII(aAddr) {\n			err = errors.New(\"illegal address:\" + aAddr)\n		}\n", "", ["C11"], "typed-address", note="rfc822 ORCPT with non-printable decoded octets accepted")
+mut("M85", "conn.go", "					c.handlePanic(err, status)\n\n					dataResult <- errPanic", "					c.handlePanic(err, c.bdatStatus)\n\n					dataResult <- errPanic", ["C13", "C20"], "", note="BDAT recover handler fills whatever collector the connection holds now")
+mut("M86", "conn.go", "	if status != nil {\n		status.fillRemaining(errPanic)\n	}\n\n	stack := debug.Stack()", "	stack := debug.Stack()", ["C13"], "every-recipient-of-the-given-collector-is-answered", note="handlePanic no longer answers the recipients (command loop waits for ever)")
 # ---------------------------------------------------------------- client.go
 mut("M30", "client.go", "	if d.closed {\n		return fmt.Errorf(\"smtp: data writer closed twice\")\n	}\n	d.closed = true\n", "	if d.closed {\n		return fmt.Errorf(\"smtp: data writer closed twice\")\n	}\n", ["C16"], "always-closed-afterwards", note="dataCloser never marked closed (also regression of fix 755bba6)")
 mut("P13r", "client.go", "		// The transaction is over, its recipients must not be reported\n		// again for the next one on this connection.\n		d.c.rcpts = nil\n", "", ["C18"], "recipients-forgotten", note="regression of fix beb567b (LMTP recipients carried over)")
